@@ -25,8 +25,8 @@ def derive_seed(*parts) -> int:
 
 class Sim:
     DEFAULT_BUDGETS = {
-        "frames": 30000,        # client->peer frames handled by endpoints
-        "raw_io": 400000,      # raw recv/send calls on simulated sockets
+        "frames": 100000,        # client->peer frames handled by endpoints
+        "raw_io": 3000000,      # raw recv/send calls on simulated sockets
         "vtime_us": 3600 * 10**6,
     }
 
